@@ -23,6 +23,7 @@ from detsim import lib
 from detsim.core import HistoryWorld, Violation
 from detsim.sim import Sim, Net
 from .common import call
+from refmodel import mnemonic as refmn
 
 from pytoniq_core.crypto import ciphers as lc
 from pytoniq_core.crypto import keys as lk
@@ -93,6 +94,17 @@ def ref_wallet_key(words):
     return nacl.bindings.crypto_sign_seed_keypair(seed[:32])
 
 
+_CORPUS = None
+_WORDSET = frozenset(refmn.WORDS)
+
+
+def _corpus():
+    global _CORPUS
+    if _CORPUS is None:
+        _CORPUS = refmn.corpus()
+    return _CORPUS
+
+
 class St:
     pass
 
@@ -100,8 +112,8 @@ class St:
 class AdnlWorld(HistoryWorld):
     name = 'ADNL'
     chunk = 10
-    legs = {'quick': [('channel', 6000), ('sign', 1600), ('mnemonic', 160)],
-            'thorough': [('channel', 200000), ('sign', 40000), ('mnemonic', 6000)]}
+    legs = {'quick': [('channel', 6000), ('sign', 1600), ('mnemonic', 160), ('scripted', 256)],
+            'thorough': [('channel', 200000), ('sign', 40000), ('mnemonic', 6000), ('scripted', 256)]}
     budget = {'quick': 100, 'thorough': 1500}
     real_code = ['pytoniq_core.crypto.ciphers (Client, Server, AdnlChannel.encrypt/decrypt, get_shared_key, get_signature, key/iv derivation) on BOTH ends of every channel',
                  'pytoniq_core.crypto.signature (verify_sign, sign_message)', 'pytoniq_core.crypto.keys (mnemonic_new, mnemonic_is_valid, mnemonic_to_wallet_key, mnemonic_to_private_key, get_secure_random_number)']
@@ -137,6 +149,8 @@ class AdnlWorld(HistoryWorld):
                     'misroute': rng.choice([0, 0, 0.2]), 'msgs': rng.choice([3, 6, 12, 24]), 'steps': 400}
         if leg == 'sign':
             return {'entropy_seed': rng.getrandbits(64), 'entropy_mode': rng.choice(['uniform', 'uniform', 'zeros', 'ones', 'low', 'same']), 'steps': rng.choice([2, 4, 8])}
+        if leg == 'scripted':
+            return {'first': run_index * 64, 'count': 64, 'steps': 64}
         return {'steps': rng.choice([3, 5, 8]), 'fresh': self.tier == 'thorough' and rng.random() < 0.08}
 
     def V(self, ctx, invariant, opkind, klass, msg):
@@ -224,6 +238,11 @@ class AdnlWorld(HistoryWorld):
                 n = rng.choice([0, 1, 31, 32, 33, 64, 200, 5000])
                 st.queue.append({'op': 'sign', 'key': rng.randrange(3), 'route': rng.choice(['client', 'get_signature', 'sign_message']),
                                  'msg': bytes(rng.getrandbits(8) for _ in range(n)).hex(), 'alt_seed': rng.getrandbits(32)})
+        elif st.leg == 'scripted':
+            # the entropy source happens to deliver exactly the bytes that spell a valid phrase (pinned corpus of phrases found by
+            # the reference rule): mnemonic_new returns at its first candidate, so thousands of generated phrases cost milliseconds each
+            for k in range(ctx.cfg['count']):
+                st.queue.append({'op': 'scripted_new', 'phrase': ctx.cfg['first'] + k, 'pad_seed': rng.getrandbits(32)})
         else:
             k = 0
             for _ in range(ctx.cfg['steps']):
@@ -512,6 +531,51 @@ class AdnlWorld(HistoryWorld):
             self.V(ctx, 'generated-mnemonic-invalid', 'reference', op['mode'], 'the generated mnemonic is not a TON basic seed by the reference rule: %s' % ' '.join(words))
             return
         st.mn.append({'words': words, 'key': None})
+
+    def op_scripted_new(self, st, op, ctx):
+        corpus = _corpus()
+        if not corpus:
+            return
+        idx = corpus[op['phrase'] % len(corpus)]
+        phrase = [refmn.WORDS[i] for i in idx]
+        pad = random.Random(op['pad_seed'])
+        script = list(idx)
+        fallback = EntropySeam(op['pad_seed'], 'uniform')
+        state = {'calls': 0}
+
+        def urandom(n=32):
+            # get_secure_random_number reads a big-endian number from the leading ceil(11/8) bytes; when the script is used up
+            # (the library did not accept the phrase, or maps bytes to words differently) the stream goes on uniformly
+            state['calls'] += 1
+            if script and n >= 2:
+                i = script.pop(0)
+                return bytes([i >> 8 | (pad.getrandbits(5) << 3), i & 0xff]) + bytes(pad.getrandbits(8) for _ in range(n - 2))
+            return fallback(n)
+        with patched(lk, 'os', types.SimpleNamespace(urandom=urandom)):
+            ok, words = call(lk.mnemonic_new)
+        ctx.fault('entropy-spells-valid-phrase')
+        ctx.evaluated(1)
+        if not ok:
+            self.V(ctx, 'mnemonic-new-fails', 'mnemonic_new', 'scripted', 'mnemonic_new raised %r' % (words,))
+            return
+        if not isinstance(words, list) or len(words) != 24 or any(w not in _WORDSET for w in words):
+            self.V(ctx, 'mnemonic-shape', 'mnemonic_new', 'scripted', 'mnemonic_new returned %r' % (words,))
+            return
+        if words == phrase:
+            ctx.probe('scripted-phrase-returned-at-first-candidate')
+        else:
+            ctx.probe('scripted-phrase-not-taken')
+        ok, v = call(lk.mnemonic_is_valid, list(words))
+        if not (ok and v is True):
+            self.V(ctx, 'generated-mnemonic-invalid', 'mnemonic_is_valid', 'scripted', 'mnemonic_is_valid(mnemonic_new()) = %r for %s' % (v, ' '.join(words)))
+            return
+        if not refmn.is_basic_seed_ref(words):
+            self.V(ctx, 'generated-mnemonic-invalid', 'reference', 'scripted', 'the generated mnemonic is not a TON basic seed by the reference rule: %s' % ' '.join(words))
+            return
+        ok, v = call(lk.mnemonic_is_valid, list(phrase))
+        if not (ok and v is True):
+            # a phrase that IS valid by the TON rule, and that mnemonic_new can therefore return, is refused
+            self.V(ctx, 'validity-differs-from-rule', 'mnemonic_is_valid', 'valid-phrase', 'mnemonic_is_valid = %r for the valid phrase %s' % (v, ' '.join(phrase)))
 
     def op_validate(self, st, op, ctx):
         if not st.mn:
